@@ -18,6 +18,9 @@ func (a *A) C19() {
 	a.skippedNeverPooled()
 	prs := a.parserFirst()
 	a.parserResult(prs)
+	// "each assembled unit exactly once": the accumulator that receives a packet is the one the pool's map holds under the
+	// packet's PID (I1 of C07) — a cached accumulator outlives the drain that already handed its packets to the parser
+	a.keyedByPID()
 }
 
 func (a *A) global(name string) *ssa.Global {
